@@ -187,6 +187,16 @@ def apply(w, ev):
         return cfi_obs(dw.CFI_entries())
     if k == 'EH_CFI':
         return cfi_obs(dw.EH_CFI_entries())
+    if k == 'cfi_decode':
+        # the user keeps the entry list of one CFI_entries() / EH_CFI_entries() call and decodes single entries of it, in any order
+        key = '#cfi_' + ev[1]
+        if key not in w.held:
+            w.held[key] = dw.CFI_entries() if ev[1] == 'debug' else dw.EH_CFI_entries()
+        e = w.held[key][ev[2]]
+        if type(e).__name__ == 'ZERO':
+            return ('ZERO', e.offset)
+        dec = e.get_decoded()
+        return (type(e).__name__, e.offset, list(dec.reg_order), [sorted((str(k_), repr(v_)) for k_, v_ in r.items()) for r in dec.table])
     if k == 'aranges':
         return dw.get_aranges().cu_offset_at_addr(ev[1])
     if k == 'pubnames':
@@ -387,8 +397,10 @@ def derive_events(data, max_dies=40, iterators=True, scramble=True, light=False,
                 break
         if dw.has_CFI():
             ev.append(('CFI',))
+            ev += [('cfi_decode', 'debug', i) for i in range(min(4, len(dw.CFI_entries())))]
         if dw.has_EH_CFI():
             ev.append(('EH_CFI',))
+            ev += [('cfi_decode', 'eh', i) for i in range(min(4, len(dw.EH_CFI_entries())))]
         if dw.debug_aranges_sec is not None:
             ev += [('aranges', 0x401010), ('aranges', 0x10)]
         if dw.debug_pubnames_sec is not None:
@@ -530,7 +542,7 @@ def explore_unit(system, pass_, depth, tier, deadline):
         if system == 'M0n':
             # the saturation model: DWARF queries only (ELF-level queries create no state), no suspended generators
             events = [e for e in events if e[0] in ('iter_CUs', 'CU_at', 'CU_containing', 'top_DIE', 'dump', 'DIE_at', 'parent', 'children', 'siblings', 'follow',
-                                                    'lineprog', 'CFI', 'pubnames', 'lut_DIE', 'scramble', 'aranges', 'foreign', 'new_dwarf_info')]
+                                                    'lineprog', 'CFI', 'cfi_decode', 'pubnames', 'lut_DIE', 'scramble', 'aranges', 'foreign', 'new_dwarf_info')]
     except Exception as e:      # noqa: BLE001 - a corpus file the library cannot open at all is not a C10 subject
         return dict(system=system, skipped='cannot derive events: %s' % type(e).__name__, states=0, transitions=0, violations=[], depth_completed=0,
                     saturated=False, per_level=[], capped=None, events=0)
